@@ -27,6 +27,18 @@ let register () =
          | Res.Err _ -> "err"
          | Res.Panic s -> "panic " ^ token_of_n s)
       | _ -> "bad-args");
+  Registry.register "c11.modts" (function
+      | [t; ts; p; seq] ->
+        (* pack, then re-stamp with every timestamp of the list in turn *)
+        let pl = bytes_of_token p in
+        let t0 = { FlvTag.tg_header = { FlvTag.th_type = n_of_token t; FlvTag.th_size = n_of_int (Stdlib.List.length pl); FlvTag.th_ts = n_of_token ts };
+                   FlvTag.tg_raw = FlvTag.pack_tag (n_of_token t) (n_of_token ts) pl } in
+        let tags = Stdlib.List.fold_left (fun acc x ->
+            match acc with
+            | cur :: _ -> FlvTag.mod_tag_timestamp cur (n_of_token x) :: acc
+            | [] -> acc) [t0] (String.split_on_char ',' seq) in
+        String.concat "," (Stdlib.List.rev_map show_tag tags)
+      | _ -> "bad-args");
   Registry.register "c11.file" (function
       | [tags] ->
         let tags = parse_tags tags in
